@@ -13,17 +13,116 @@ R15.7 both solvers are dimensionally homogeneous in Tnucl (dimension inference s
 from __future__ import annotations
 
 import ast
+import copy
 
 import sympy as sp
 
-from ..core import AnchorMissing, Check, Undecided, calls_in, dotted, kwarg, own_nodes, src
+from ..core import AnchorMissing, Check, FuncInfo, Undecided, calls_in, dotted, kwarg, own_nodes, src
 from ..hydro import HY, TM, drop_ite, fn, hydro_extractor, n, th
+from ..nf import Ctx, eqx, has, match
 from ..terms import Extractor, is_zero
 
 LEVEL = "other"
+TENV = {"__module__": "hydrodynamicsTemplateModel", "__class__": "HydrodynamicsTemplateModel"}
 
 
 from ..core import Remap  # noqa: E402
+
+
+# ------------------------------------------------------------------------------------------------ roles (no local is addressed by its spelling)
+
+
+def _params(fi) -> list:
+    return [a.arg for a in fi.node.args.args if a.arg not in ("self", "cls")]
+
+
+def _target_name(st):
+    t = st.targets[0] if isinstance(st, ast.Assign) and len(st.targets) == 1 else st.target if isinstance(st, ast.AnnAssign) else None
+    return t.id if isinstance(t, ast.Name) else None
+
+
+def _defs_of(fnode, name: str) -> list:
+    """all plain assignments `name = value` of a function (own scope)"""
+    return [st for st in own_nodes(fnode) if isinstance(st, (ast.Assign, ast.AnnAssign)) and st.value is not None and _target_name(st) == name]
+
+
+def _definition(cx: Ctx, e):
+    """the expression a chain of single-assignment temporaries stands for (node identity is kept)"""
+    defs = cx.local_defs()
+    for _ in range(8):
+        if isinstance(e, ast.Name) and e.id in defs:
+            e = defs[e.id]
+        else:
+            break
+    return e
+
+
+def _unpacked(fnode, call_suffix: str) -> list:
+    """names of the tuple target unpacking the result of the (single) call `...<call_suffix>(...)`"""
+    out = []
+    for st in own_nodes(fnode):
+        if isinstance(st, ast.Assign) and len(st.targets) == 1 and isinstance(st.targets[0], (ast.Tuple, ast.List)) and isinstance(st.value, ast.Call) \
+                and ((dotted(st.value.func) or "").endswith("." + call_suffix) or dotted(st.value.func) == call_suffix):
+            out.append([x.id if isinstance(x, ast.Name) else None for x in st.targets[0].elts])
+    return out[0] if len(out) == 1 else []
+
+
+def _vminus_names(f_, cx: Ctx) -> set:
+    """locals holding v- = min(cb, vw) of a template routine"""
+    prm = _params(f_)
+    out = set()
+    for st in own_nodes(f_.node):
+        if isinstance(st, (ast.Assign, ast.AnnAssign)) and st.value is not None and _target_name(st):
+            for pat in (f"min(self.cb, {prm[0]})", f"min({prm[0]}, self.cb)"):
+                if prm and eqx(st.value, pat, cx):
+                    out.add(_target_name(st))
+    return out
+
+
+def _term(S, node):
+    """term of an expression of the template class (None when outside the translator's subset)"""
+    from ..core import AnalysisError
+    try:
+        return Extractor(S).expr(node, dict(TENV))
+    except AnalysisError:
+        return None
+
+
+def _vplus_names(f_, cx: Ctx) -> set:
+    """names standing for v+ in a template routine f(vw, vp, ...) / f(vw): its second parameter, or the local holding the root of the
+    shooting search for v+"""
+    prm = _params(f_)
+    out = set(prm[1:2])
+    for nm, v in cx.local_defs().items():
+        v = _definition(cx, v)
+        if isinstance(v, ast.Attribute) and v.attr == "root":
+            c = _definition(cx, v.value)
+            if isinstance(c, ast.Call) and (dotted(c.func) or "").split(".")[-1] == "root_scalar":
+                out.add(nm)
+    return out
+
+
+def _exponents_inlined(S, fi) -> FuncInfo:
+    """copy of a function in which single-assignment temporaries occurring in an exponent are replaced by their definition
+    (the dimension inference reads symbolic exponents off the expression; `e = 1 / self.nu; x ** e` must be read like `x ** (1 / self.nu)`)"""
+    cx = Ctx(S, fi)
+    defs = cx.local_defs()
+    if not defs:
+        return fi
+
+    class T(ast.NodeTransformer):
+        def visit_BinOp(self, x):
+            self.generic_visit(x)
+            if isinstance(x.op, ast.Pow) and any(isinstance(y, ast.Name) and y.id in defs for y in ast.walk(x.right)):
+                new = ast.BinOp(left=x.left, op=ast.Pow(), right=cx.resolve(x.right))
+                ast.copy_location(new, x)
+                ast.fix_missing_locations(new)
+                return new
+            return x
+
+    node = T().visit(copy.deepcopy(fi.node))
+    ast.fix_missing_locations(node)
+    return FuncInfo(fi.module, fi.qual, node, fi.cls, fi.parent)
 
 
 def r15_4(chk: Check):
@@ -35,28 +134,32 @@ def r15_4(chk: Check):
     if not ps:
         raise Undecided("template __init__: no path")
     env = ps[-1].env
-    Tn = ex.sym("thermodynamics.Tnucl")
-    f = lambda name: sp.Function(f"thermodynamics.{name}")
+    prm = _params(fi)
+    if not prm:
+        raise AnchorMissing("template __init__: thermodynamics parameter not found")
+    TH = prm[0]
+    Tn = ex.sym(f"{TH}.Tnucl")
+    f = lambda name: sp.Function(f"{TH}.{name}")
     pH, pL, wH, wL = f("pHighT")(Tn), f("pLowT")(Tn), f("wHighT")(Tn), f("wLowT")(Tn)
     cb2, cs2 = f("csqLowT")(Tn), f("csqHighT")(Tn)
     # Thermodynamics.alpha at Tn with e = w - p
     fa = S.func("thermodynamics:Thermodynamics.alpha")
     chk.touch(fa.name)
     al = Extractor(S).single(fa)
-    T = sp.Symbol("T", real=True)
     g = lambda name: sp.Function(name)
     al = al.replace(g("eHighT"), lambda a: g("wHighT")(a) - g("pHighT")(a)).replace(g("eLowT"), lambda a: g("wLowT")(a) - g("pLowT")(a))
     for nm in ("pHighT", "pLowT", "wHighT", "wLowT", "csqLowT"):
         al = al.replace(g(nm), lambda a, nm=nm: f(nm)(Tn))
     ok, how = is_zero(env.get("self.alN") - al, chk.seed)
     chk.ob("R15.4", fi.where(), "template alpha_n == Thermodynamics.alpha(Tn) (with e = w - p): (e+ - e- - (p+ - p-)/cb^2)/(3 w+)", ok, how, key="alN", how=how)
-    ok = env.get("self.psiN") == wL / wH and env.get("self.cb2") == cb2 and env.get("self.cs2") == cs2
+    same = lambda a, b: isinstance(a, sp.Basic) and sp.simplify(a - b) == 0
+    ok = same(env.get("self.psiN"), wL / wH) and same(env.get("self.cb2"), cb2) and same(env.get("self.cs2"), cs2)
     chk.ob("R15.4", fi.where(), "Psi_n = w-(Tn)/w+(Tn), cb^2 = csqLowT(Tn), cs^2 = csqHighT(Tn)", ok,
            f"{env.get('self.psiN')}, {env.get('self.cb2')}, {env.get('self.cs2')}", key="psi-cs")
-    ok = sp.simplify(env.get("self.nu") - (1 + 1 / cb2)) == 0 and sp.simplify(env.get("self.mu") - (1 + 1 / cs2)) == 0
+    ok = same(env.get("self.nu"), 1 + 1 / cb2) and same(env.get("self.mu"), 1 + 1 / cs2)
     chk.ob("R15.4", fi.where(), "nu = 1 + 1/cb^2 (broken phase), mu = 1 + 1/cs^2 (symmetric phase): the exponents of Thermodynamics' own extrapolation",
            ok, f"{env.get('self.nu')}, {env.get('self.mu')}", key="exponents")
-    ok = env.get("self.wN") == wH and env.get("self.pN") == pH and env.get("self.Tnucl") == Tn
+    ok = same(env.get("self.wN"), wH) and same(env.get("self.pN"), pH) and same(env.get("self.Tnucl"), Tn)
     chk.ob("R15.4", fi.where(), "wN = w+(Tn), pN = p+(Tn), Tnucl taken from the same thermodynamics object", ok, key="wN-pN")
     chk.floor("R15.4", 4)
 
@@ -66,38 +169,59 @@ def r15_5(chk: Check):
     ex = hydro_extractor(S, positive={"self.cb2", "self.mu", "self.nu", "self.Tnucl", "self.psiN"})
     fg = S.func(f"{TM}.getVp")
     chk.touch(fg.name)
+    pg = _params(fg)
+    if len(pg) != 3:
+        raise AnchorMissing("template getVp: expected parameters (vm, al, branch)")
     vm, alp = sp.Symbol("vm", positive=True), sp.Symbol("al", positive=True)
     cb2 = ex.sym("self.cb2")
     for branch in (-1, 1):
-        v = ex.single(fg, {"vm": vm, "al": alp, "branch": sp.Integer(branch)})
+        v = ex.single(fg, {pg[0]: vm, pg[1]: alp, pg[2]: sp.Integer(branch)})
         v = v.replace(sp.Max, lambda *a: [x for x in a if x != 0][0])   # discriminant assumed non-negative
         rel = (v / vm - 1) * (v * vm / cb2 - 1) / (1 - v**2) / 3 - alp
         ok, how = is_zero(sp.simplify(rel), chk.seed)
         chk.ob("R15.5", fg.where(), f"getVp(branch={branch:+d}) solves alpha+ = (v+/v- - 1)(v+ v-/cb^2 - 1)/(3 (1 - v+^2)), the relation used by the shooting",
                ok, how, key=f"getVp|{branch}", how=how)
-    # alpha relation at the three places it is coded
+    # alpha relation at the three places it is coded: the arithmetic definition of the strength handed to wFromAlpha
     forms = []
+    cbs = sp.Symbol("self.cb2", real=True)
     for q in ("_shooting", "findMatching", "matchDeflagOrHybInitial"):
         f_ = S.func(f"{TM}.{q}")
         chk.touch(f_.name)
-        for st in own_nodes(f_.node):
-            if isinstance(st, (ast.Assign, ast.AnnAssign)) and st.value is not None:
-                t = st.targets[0] if isinstance(st, ast.Assign) else st.target
-                if n(t) in ("al", "alp") and "vp" in n(st.value) and "vm" in n(st.value):
-                    e = Extractor(S).expr(st.value, {"__module__": "hydrodynamicsTemplateModel", "__class__": "HydrodynamicsTemplateModel"})
-                    forms.append((q, e, f_))
-    vpS, vmS = sp.Symbol("vp", real=True), sp.Symbol("vm", real=True)
-    ref = (vpS / vmS - 1) * (vpS * vmS / sp.Symbol("self.cb2", real=True) - 1) / (1 - vpS**2) / 3
-    for q, e, f_ in forms:
-        ok, how = is_zero(e - ref, chk.seed)
+        cq = Ctx(S, f_)
+        VM = _vminus_names(f_, cq)
+        VP = _vplus_names(f_, cq)
+        for c in calls_in(f_.node, "self.wFromAlpha"):
+            a = kwarg(c, "al", 0)
+            cands = [a] if a is not None and not isinstance(a, ast.Name) else [st.value for st in _defs_of(f_.node, a.id)] if a is not None else []
+            for v in cands:
+                if any(isinstance(y, ast.Call) and (dotted(y.func) or "").endswith("solveAlpha") for y in ast.walk(v)):
+                    continue          # alpha determined by the entropy condition, not by (v+, v-)
+                # as written, then with temporaries / extracted helpers looked through level by level
+                es = [_term(S, v)] + [_term(S, cq.resolve(v, keep=VM, maxdepth=d_)) for d_ in (1, 2, 3)]
+                forms.append((q, es, f_, VM, VP))
+    for q, es, f_, VM, VP in forms:
+        ok, how = False, "not a function of (v+, v-) only"
+        for e in es:
+            if ok or not isinstance(e, sp.Basic):
+                continue
+            free = sorted(e.free_symbols - {cbs}, key=str)
+            vms = [s_ for s_ in free if s_.name in VM]
+            vps_ = [s_ for s_ in free if s_.name in VP]
+            if len(free) == 2 and len(vms) == 1 and len(vps_) == 1 and vps_[0] is not vms[0]:
+                vmS, vpS = vms[0], vps_[0]
+                ref = (vpS / vmS - 1) * (vpS * vmS / cbs - 1) / (1 - vpS**2) / 3
+                ok, how = is_zero(e - ref, chk.seed)
         chk.ob("R15.5", f_.where(), f"{q}: alpha+(v+, v-) has the same form as in the other template routines", ok, how, key=f"alpha-form|{q}", how=how)
     if len(forms) < 3:
         raise AnchorMissing("template: alpha(v+, v-) relation not found at its three sites")
     # _findTm: energy flux conservation with w+ = (T/Tn)^mu, w- = Psi (T/Tn)^nu (units w+(Tn) = 1)
     ft = S.func(f"{TM}._findTm")
     chk.touch(ft.name)
+    pt = _params(ft)
+    if len(pt) != 3:
+        raise AnchorMissing("template _findTm: expected parameters (vm, vp, Tp)")
     Tm = ex.single(ft)
-    vm_, vp_, Tp_ = ex.sym("vm"), ex.sym("vp"), ex.sym("Tp")
+    vm_, vp_, Tp_ = (ex.sym(p) for p in pt)
     Tn, mu, nu, psi = ex.sym("self.Tnucl"), ex.sym("self.mu"), ex.sym("self.nu"), ex.sym("self.psiN")
     P = {s_: sp.Symbol(s_.name.replace(".", "_") + "P", positive=True) for s_ in (vm_, vp_, Tp_, Tn, mu, nu, psi)}
     TmP = Tm.subs(P)
@@ -107,41 +231,66 @@ def r15_5(chk: Check):
     ok, how = is_zero(sp.simplify(sp.powsimp(sp.expand_power_base(flux, force=True), force=True)), chk.seed,
                       ranges={P[vm_]: (0, 1), P[vp_]: (0, 1), P[mu]: (3, 5), P[nu]: (3, 5)})
     chk.ob("R15.5", ft.where(), "_findTm: T- makes the energy flux w gamma^2 v continuous with w+ = (T+/Tn)^mu, w- = Psi_n (T-/Tn)^nu", ok, how, key="findTm", how=how)
-    # T+ from w+: Tp = Tn * wp**(1/mu) at both sites
-    cnt = 0
+    # T+ from w+: Tp = Tn * wp**(1/mu) at both sites: T+ is what is handed to _findTm as Tp, w+ is what wFromAlpha returned
     for q in ("findMatching", "matchDeflagOrHybInitial"):
         f_ = S.func(f"{TM}.{q}")
-        for st in own_nodes(f_.node):
-            if isinstance(st, ast.Assign) and n(st.targets[0]) == "Tp":
-                e = Extractor(S).expr(st.value, {"__module__": "hydrodynamicsTemplateModel", "__class__": "HydrodynamicsTemplateModel"})
-                ok, how = is_zero(e - sp.Symbol("self.Tnucl", real=True) * sp.Symbol("wp", real=True) ** (1 / sp.Symbol("self.mu", real=True)), chk.seed)
-                cnt += 1
+        cq = Ctx(S, f_)
+        W = {_target_name(st) for st in own_nodes(f_.node) if isinstance(st, (ast.Assign, ast.AnnAssign)) and st.value is not None and _target_name(st)
+             and isinstance(st.value, ast.Call) and eqx(st.value.func, "self.wFromAlpha")}
+        for c in calls_in(f_.node, "self._findTm"):
+            a = kwarg(c, pt[2], 2)
+            sts = _defs_of(f_.node, a.id) if isinstance(a, ast.Name) else []
+            for st in sts:
+                e = _term(S, cq.resolve(st.value, keep=W))
+                ok, how = False, "w+ (result of wFromAlpha) not found"
+                if len(W) == 1 and isinstance(e, sp.Basic):
+                    ok, how = is_zero(e - sp.Symbol("self.Tnucl", real=True) * sp.Symbol(next(iter(W)), real=True) ** (1 / sp.Symbol("self.mu", real=True)), chk.seed)
                 chk.ob("R15.5", f_.where(st), f"{q}: T+ = Tn w+^(1/mu) (inverse of w+ = (T+/Tn)^mu)", ok, how, key=f"Tp|{q}", how=how)
-    # efficiencyFactor: wp = (Tp/Tn)**mu, wm from flux conservation
+    # efficiencyFactor: wp = (Tp/Tn)**mu, wm from flux conservation: the enthalpies handed to the two integrations
     fe = S.func(f"{TM}.efficiencyFactor")
-    d = {n(st.targets[0]): st.value for st in own_nodes(fe.node) if isinstance(st, ast.Assign) and isinstance(st.targets[0], ast.Name)}
+    ce = Ctx(S, fe)
     exx = hydro_extractor(S)
-    envx = {"__module__": "hydrodynamicsTemplateModel", "__class__": "HydrodynamicsTemplateModel"}
-    ok1 = "wp" in d and is_zero(exx.expr(d["wp"], envx) - (exx.sym("Tp") / exx.sym("self.Tnucl")) ** exx.sym("self.mu"))[0]
-    wm_e = exx.expr(d["wm"], dict(envx, wp=exx.sym("wp"))) if "wm" in d else None
-    ok2 = wm_e is not None and is_zero(wm_e - exx.sym("wp") * exx.sym("vp") / (1 - exx.sym("vp") ** 2) * (1 - exx.sym("vm") ** 2) / exx.sym("vm"))[0]
+    um = _unpacked(fe.node, "findMatching")
+    ips = calls_in(fe.node, "self.integratePlasma")
+    sh = [c for c in ips if kwarg(c, "shockWave", 3) is None or eqx(kwarg(c, "shockWave", 3), "True", ce)]
+    ra = [c for c in ips if kwarg(c, "shockWave", 3) is not None and eqx(kwarg(c, "shockWave", 3), "False", ce)]
+    ok1 = ok2 = False
+    if len(um) == 4 and None not in um and len(sh) == 1 and len(ra) == 1:
+        vpS, vmS, TpS = exx.sym(um[0]), exx.sym(um[1]), exx.sym(um[2])
+        wpa, wma = kwarg(sh[0], "wp", 2), kwarg(ra[0], "wp", 2)
+        WPn = wpa.id if isinstance(wpa, ast.Name) else None
+        wp_e = exx.expr(ce.resolve(wpa), dict(TENV)) if wpa is not None else None
+        ok1 = isinstance(wp_e, sp.Basic) and is_zero(wp_e - (TpS / exx.sym("self.Tnucl")) ** exx.sym("self.mu"))[0]
+        keep = {WPn} if WPn else set()
+        wm_e = exx.expr(ce.resolve(wma, keep=keep), dict(TENV)) if wma is not None else None
+        wps = exx.sym(WPn) if WPn else wp_e
+        ok2 = isinstance(wm_e, sp.Basic) and wps is not None and is_zero(wm_e - wps * vpS / (1 - vpS ** 2) * (1 - vmS ** 2) / vmS)[0]
     chk.ob("R15.5", fe.where(), "efficiencyFactor: w+ = (T+/Tn)^mu and w- = w+ gamma+^2 v+ / (gamma-^2 v-) (energy flux)", bool(ok1 and ok2), key="kappa-enthalpies")
     # bracket trimming in findMatching: the v+ at which the template enthalpy w+(alpha+) changes sign solves (1 - 3 alpha+(v+, v-)) mu = nu
     ff = S.func(f"{TM}.findMatching")
+    cf = Ctx(S, ff)
     exf = hydro_extractor(S, positive={"self.mu", "self.nu", "vm"})
-    d_ = {}
-    for st in sorted([x for x in ast.walk(ff.node) if isinstance(x, ast.Assign) and isinstance(x.targets[0], ast.Name)], key=lambda s_: s_.lineno):
-        d_.setdefault(st.targets[0].id, st.value)
     okw = None
-    howw = "vpSignChangeWp / sqrtDisc not found"
-    if "vpSignChangeWp" in d_ and "sqrtDisc" in d_:
-        envf = {"__module__": "hydrodynamicsTemplateModel", "__class__": "HydrodynamicsTemplateModel"}
-        disc = exf.expr(d_["sqrtDisc"], dict(envf))
-        vps = exf.expr(d_["vpSignChangeWp"], dict(envf, sqrtDisc=disc))
-        mu_, nu_, vmm = exf.sym("self.mu"), exf.sym("self.nu"), exf.sym("vm")
-        cb2_ = 1 / (nu_ - 1)
-        alp = (vps / vmm - 1) * (vps * vmm / cb2_ - 1) / (1 - vps**2) / 3
-        okw, howw = is_zero(sp.simplify((1 - 3 * alp) * mu_ - nu_), chk.seed, ranges={vmm: (0, 1), mu_: (4, 5), nu_: (4, 5)})
+    howw = "the cut of the upper bracket end (`vpMax = <v+ of the sign change> - eps`) not found"
+    VM = _vminus_names(ff, cf)
+    cut = None
+    for c in calls_in(ff.node, "root_scalar"):
+        br = kwarg(c, "bracket", 3)
+        br = _definition(cf, br) if br is not None else None
+        hi = br.elts[1] if isinstance(br, (ast.Tuple, ast.List)) and len(br.elts) == 2 else None
+        if isinstance(hi, ast.Name):
+            for st in _defs_of(ff.node, hi.id):
+                v = st.value
+                if isinstance(v, ast.BinOp) and isinstance(v.op, ast.Sub) and isinstance(v.right, ast.Constant) and isinstance(v.right.value, float) and 0 < v.right.value < 1e-6:
+                    cut = v.left
+    if cut is not None and len(VM) == 1:
+        vps = exf.expr(cf.resolve(cut, keep=VM), dict(TENV))
+        mu_, nu_, vmm = exf.sym("self.mu"), exf.sym("self.nu"), sp.Symbol("vm", positive=True)
+        if isinstance(vps, sp.Basic):
+            vps = vps.subs(exf.sym(next(iter(VM))), vmm)
+            cb2_ = 1 / (nu_ - 1)
+            alp = (vps / vmm - 1) * (vps * vmm / cb2_ - 1) / (1 - vps**2) / 3
+            okw, howw = is_zero(sp.simplify((1 - 3 * alp) * mu_ - nu_), chk.seed, ranges={vmm: (0, 1), mu_: (4, 5), nu_: (4, 5)})
     chk.ob("R15.5", ff.where(), "findMatching: the bracket cut `vpSignChangeWp` is the v+ where the template enthalpy changes sign, i.e. it solves "
            "(1 - 3 alpha+(v+, v-)) mu == nu with cb^2 = 1/(nu - 1)", okw, howw, key="wp-sign-change", how=howw)
     chk.floor("R15.5", 10)
@@ -159,8 +308,14 @@ def r15_6(chk: Check):
            users == ["initTemperatureRange"], str(users), key="manager-template-use")
     fr = S.func("manager:WallGoManager.initTemperatureRange")
     chk.touch(fr.name)
+    cr = Ctx(S, fr)
     c = [x for x in calls_in(fr.node, "findMatching")]
-    ok = len(c) == 2 and all(n(x.func) == "hydrodynamicsTemplate.findMatching" for x in c)
+
+    def on_template(x) -> bool:
+        v = _definition(cr, x.func.value) if isinstance(x.func, ast.Attribute) else None
+        return isinstance(v, ast.Call) and eqx(v.func, "HydrodynamicsTemplateModel") and eqx(kwarg(v, "thermodynamics", 0), "self.thermodynamics", cr)
+
+    ok = len(c) == 2 and all(on_template(x) for x in c)
     chk.ob("R15.6", fr.where(), "it uses the template matching at 0.99 vJ and at 1e-3 to bound T+ and T-", ok, key="range-estimates")
     # full solver seeds its 2x2 solve from the template (initial guess only) and falls back to it only when no root is bracketed
     fm = S.func(f"{HY}.matchDeflagOrHyb")
@@ -193,7 +348,7 @@ def rules(chk: Check) -> None:
         for fi in chk.src.module(m_).funcs.values():
             if fi.parent is None:
                 b0 = len(K.reports)
-                K.analyse(fi)
+                K.analyse(_exponents_inlined(chk.src, fi))
                 nfun += 1
                 for r_ in K.reports[b0:]:
                     if r_.kind in ("conflict", "sink", "transcendental"):
